@@ -179,6 +179,12 @@ func c04Run(c c04Case, o *hx.Obs) {
 	// a read may report the schema default of an unset leaf (the property allows it, it does not demand it)
 	want := c.Data
 	opts := dm.DiffOpts{IgnoreEmptyList: true, AllowDefaults: true}
+	switch c.Source {
+	case "reflect-map", "node-map":
+		opts.ListsAsSets = true // Go maps are read in key order
+	case "reflect-struct", "node-struct":
+		opts.ListsAsSets, opts.ZeroIsUnset = true, true // some lists are maps; a plain field cannot be unset
+	}
 
 	// (a) export into a recording reference store
 	var log []dm.RSEvent
@@ -271,12 +277,31 @@ func sortedBoolKeysT(m map[string]bool) []string {
 
 var c04Export = hx.Register(&hx.Check[c04Case]{
 	Name: "c04-export-json",
-	Rule: "generated schema (all node kinds and leaf types, nested lists, compound keys, choices, defaults) + conforming data tree with boundary values; source in {reference store, JSON reader}; compact/pretty, qualified/unqualified; non-trivial = a list with >= 2 entries or >= 4 nodes",
+	Rule: "generated schema (all node kinds and leaf types, nested lists, compound keys, choices, defaults) + conforming data tree with boundary values; source in {reference store, JSON reader, XML reader on a harness-written document, map-, slice- and struct-backed Reflect and Node stores}; compact/pretty, qualified/unqualified; non-trivial = a list with >= 2 entries or >= 4 nodes",
 	Gen: func(t *rapid.T) c04Case {
 		o := dm.DefaultGen()
+		source := rapid.SampledFrom([]string{"rs", "rs", "json", "json", "xml", "reflect-map", "reflect-slice", "node-map", "node-slice", "reflect-struct", "node-struct"}).Draw(t, "source")
+		to := dm.DefaultTree()
+		switch source {
+		case "xml":
+			// C0 control characters cannot be written in an XML 1.0 document at all (see C19)
+			to.EasyStrings, to.EasyKeys = true, true
+		case "reflect-map", "reflect-slice", "node-map", "node-slice":
+			// what the Go-data stores can hold (as in C03 / C18)
+			o.CompoundKeys, o.Unions, o.ConfigFalse = false, false, false
+			o.Types = []string{"int8", "int32", "int64", "uint16", "uint64", "decimal64", "string", "boolean"}
+			o.KeyTypes = []string{"string", "int32"}
+			to = dm.TreeOpts{MaxEntries: 3, EasyKeys: true, EasyStrings: true, PresentPct: 75, NoEmptyStr: true}
+		case "reflect-struct", "node-struct":
+			o.CompoundKeys, o.Unions, o.ConfigFalse = false, false, false
+			o.Choices, o.NestedChoice, o.Defaults, o.Presence = false, false, false, false
+			o.Types = []string{"int8", "int32", "int64", "uint16", "uint64", "decimal64", "string", "boolean"}
+			o.KeyTypes = []string{"string", "int32"}
+			to = dm.TreeOpts{MaxEntries: 3, EasyKeys: true, EasyStrings: true, PresentPct: 75, NoEmptyStr: true}
+		}
 		m := dm.GenModule(t, o)
-		data := dm.GenTree(t, m.Root(), dm.DefaultTree())
-		return c04Case{Module: m, Data: data, Source: rapid.SampledFrom([]string{"rs", "json"}).Draw(t, "source"), Style: genJSONStyle(t),
+		data := dm.GenTree(t, m.Root(), to)
+		return c04Case{Module: m, Data: data, Source: source, Style: genJSONStyle(t),
 			Pretty: rapid.Bool().Draw(t, "pretty"), Qual: rapid.Bool().Draw(t, "qual")}
 	},
 	Run: c04Run,
